@@ -342,6 +342,22 @@ def run_helpers(case, ctx):
         st, got = ctx.call(call, x)
         exp = map_leaves(x, call)
         ctx.check('lib_helpers_map_leaves', st == 'ok' and same(got, exp), lambda: '%s(%r) = %s %r, map over leaves gives %r' % (name, case['x'], st, got, exp))
+    # as_float against its own rule where that rule is plain: a text holding no digit comes back as the very text it was (not as another text that
+    # merely looks like it once blanks and commas are dropped), a blank text as None, a non-text as it is
+    flat_in, flat_out = [], []
+    map_leaves(x, lambda v: flat_in.append(v))
+    st_af, got_af = ctx.call(pb.as_float, x)
+    if st_af == 'ok':
+        map_leaves(got_af, lambda v: flat_out.append(v))
+    okaf = st_af == 'ok' and len(flat_in) == len(flat_out)
+    if okaf:
+        for vi, vo in zip(flat_in, flat_out):
+            if _isstr(vi):
+                if not any(ch.isdigit() for ch in vi):
+                    okaf = okaf and ((vo is None) if not vi.replace(',', '').replace(' ', '') else (type(vo) is str and vo == vi))
+            else:
+                okaf = okaf and (vo is vi or (type(vo) is type(vi) and (vo == vi or vo != vo)))
+    ctx.check('lib_helpers_leaf_oracle', okaf, lambda: 'as_float(%r) = %s %r: a text without digits comes back unchanged, a blank one as None, a non-text as it is' % (case['x'], st_af, got_af))
     ctx.check('operands_unchanged', snap_same(snap(x), s0), lambda: 'helper modified its argument')
     if depth_of(case['x']) >= 2:
         ctx.mark_nontrivial(case)
@@ -424,12 +440,17 @@ def run_zip(case, ctx):
             v = (v,)          # a length-1 sequence whose only element happens to be a list: broadcast as one element
         elif how == 'list1_of_list' and isinstance(v, list):
             v = [v]
+        elif how == 'values_view' and isinstance(v, list):
+            v = {i: e for i, e in enumerate(v)}.values()         # the values of a dict: a sequence like any other
+        elif how == 'values_view1_of_list' and isinstance(v, list):
+            v = {'only': v}.values()                              # ... of ONE entry that happens to hold a list: a length-1 sequence, broadcast as one element
         live.append(v)
-    seqs = [list(v) if isinstance(v, (list, tuple, range, np.ndarray)) else [v] for v in live]
+    views = (type({}.values()), type({}.keys()))
+    seqs = [list(v) if isinstance(v, (list, tuple, range, np.ndarray) + views) else [v] for v in live]
     lengths = [len(s) for s in seqs]
     S = set(lengths) - {1}
     st, got = ctx.call(lambda: list(zipper(*live)))
-    stl, gl = ctx.call(lens, *[v if isinstance(v, (list, tuple, range, np.ndarray)) else [v] for v in live])
+    stl, gl = ctx.call(lens, *[(list(v) if isinstance(v, views) else v) if isinstance(v, (list, tuple, range, np.ndarray) + views) else [v] for v in live])
     if len(S) > 1:
         ctx.check('zipper_model', st == 'exc' and isinstance(got, ValueError), lambda: 'zipper over lengths %s -> %s %r (expected ValueError)' % (lengths, st, got))
         ctx.check('lens_model', stl == 'exc' and isinstance(gl, ValueError), lambda: 'lens over lengths %s -> %s %r (expected ValueError)' % (lengths, stl, gl))
@@ -439,7 +460,7 @@ def run_zip(case, ctx):
         ctx.check('zipper_model', st == 'ok' and len(got) == len(exp) and all(same(tuple(a), b) or all(x == y for x, y in zip(a, b)) for a, b in zip(got, exp)), lambda: 'zipper(%r) = %s %r, model %r' % (live, st, got, exp))
         ctx.check('lens_model', stl == 'ok' and gl == n, lambda: 'lens over lengths %s = %s %r, model %d' % (lengths, stl, gl, n))
     extra = [[[1, 2]], [[]], [[[1, 2]]], ([1, 2],), ((1, 2),), [(1, 2)], [[1], [2]], ([1], [2]), [None], (None,), [[None]]] if case.get('nested_norm') else []
-    for v in list(live) + extra:
+    for v in [v_ for v_ in live if not isinstance(v_, views)] + extra:
         for fn, tp in ((as_list, list), (as_tuple, tuple)):
             st1, once = ctx.call(fn, v)
             st2, twice = ctx.call(lambda: fn(fn(v)))
@@ -465,7 +486,7 @@ def gen_zip_case(rng):
         else:
             n = base if rng.random() < 0.6 else rng.choice([0, 1, 2, 3, 4])
             vals.append([rng.choice([1, 2, 3, 'a']) for _ in range(n)])
-            forms.append(rng.choice(['list', 'tuple', 'range', 'array', 'list', 'list', 'tuple', 'tuple1_of_list', 'list1_of_list']))
+            forms.append(rng.choice(['list', 'tuple', 'range', 'array', 'list', 'list', 'tuple', 'tuple1_of_list', 'list1_of_list', 'values_view', 'values_view1_of_list']))
     return {'kind': 'zip', 'vals': vals, 'forms': forms, 'nested_norm': rng.random() < 0.3}
 
 
@@ -652,7 +673,7 @@ def run(spec, ctx):
         if r < 0.6:
             case = gen_lift_case(rng)
         elif r < 0.8:
-            pool = ['Abc def', ' x ', 'a b  c', 1, 2.5, None, '1.3k', '50%', 'abab', '', 1234.5678, 'A,b']
+            pool = ['Abc def', ' x ', 'a b  c', 1, 2.5, None, '1.3k', '50%', 'abab', '', 1234.5678, 'A,b', 'Abcdef', 'Ab', 'x', 'ab  c', 'a,b c', 'New York', 'NewYork']
             if rng.random() < 0.4:      # leaves that are == and hash-equal but of different kinds
                 pool = pool + [True, 1.0, False, 0.0, {'$np': ['int64', 4]}, 4.0, 4, {'$np': ['float64', 2.5]}, -0.0, 0.0, True, 1.0]
             leaf = lambda: rng.choice(pool)
